@@ -36,6 +36,42 @@ func genC07(r *simrt.Rand, tier string) *simrt.Plan {
 			ops = append(ops, g.storageOp())
 		}
 	}
+	if kind == l2Set && r.Bool(0.15) {
+		// a container that is full but for one or two columns, then the missing columns written
+		// through the other paths (and one present column cleared and written again)
+		row, cont := g.row(), int64(r.Intn(16))
+		fill := simrt.Op{K: "fill", I: []int64{row, cont, int64(r.Intn(4))}}
+		var holes []int64
+		for k := 1 + r.Intn(2); k > 0; k-- {
+			o := simrt.Pick(r, int64(0), 65535, 1, int64(r.Intn(65536)))
+			holes = append(holes, o)
+			fill.I = append(fill.I, o)
+		}
+		extra := []simrt.Op{fill}
+		if r.Bool(0.3) {
+			extra = append(extra, g.storageOp())
+		}
+		if r.Bool(0.3) {
+			o := int64(r.Intn(65536))
+			extra = append(extra, simrt.Op{K: "clear", I: []int64{row, cont*65536 + o}})
+			holes = append(holes, o)
+		}
+		for _, o := range holes {
+			col := cont*65536 + o
+			switch r.Intn(4) {
+			case 0:
+				extra = append(extra, simrt.Op{K: "set", I: []int64{row, col}})
+			case 1:
+				extra = append(extra, simrt.Op{K: "import", I: []int64{0, row, col}})
+			default:
+				extra = append(extra, simrt.Op{K: "iroaring", I: []int64{0, int64(r.Intn(3)), row, col}})
+			}
+			extra = append(extra, simrt.Op{K: "rbit", I: []int64{row, col}})
+		}
+		extra = append(extra, simrt.Op{K: "rrow", I: []int64{row}})
+		at := r.Intn(len(ops) + 1)
+		ops = append(ops[:at:at], append(extra, ops[at:]...)...)
+	}
 	ops = append(ops, simrt.Op{K: "rfull"})
 	p.Clients = [][]simrt.Op{ops}
 	return p
